@@ -494,7 +494,31 @@ def rule_cond_matrix(ctx):
         if arm is None:
             obs.append(bad('COND-MATRIX', inst, 'no arm for parent kind %s' % kind, m.get('sp', ''), 'impossible type conditions accepted'))
         elif _contains_err_return(arm['body']):
-            obs.append(ok('COND-MATRIX', inst, 'a type condition that cannot apply to a %s parent is rejected' % kind, m.get('sp', '')))
+            # a condition naming *another concrete object* can never apply (the equal type was accepted before): whatever
+            # decides "applies" must say no for it
+            accepts_other_object = None
+            if kind == 'Object':
+                for n_ in _walk(arm['body']):
+                    if n_.get('k') == 'if' and _contains_err_return(n_['then']):
+                        try:
+                            t_ = ctx.pv.eval(fn, n_['cond'], H.sym_env(fn), 0)
+                        except Exception:
+                            continue
+                        _x, c_, pol_ = P.canon_if(t_, True)
+                        if c_[0] == 'match':
+                            for pat_, val_ in c_[2]:
+                                ks_ = repr(pat_)
+                                is_other = (pat_[0] in ('wild', 'bind')) or ('TypeId::Object' in ks_)
+                                if is_other and val_[0] == 'const' and isinstance(val_[1], bool):
+                                    # the error is returned when the condition (with polarity) holds
+                                    rejected = (val_[1] == pol_)
+                                    if not rejected:
+                                        accepts_other_object = n_
+            if accepts_other_object is not None:
+                obs.append(bad('COND-MATRIX', inst, 'for an object parent a type condition naming another concrete type is accepted (the fallback of the "applies" decision is true)',
+                               accepts_other_object.get('sp', m.get('sp', '')), '`... on Droid` inside a `Human` selection is turned into code'))
+            else:
+                obs.append(ok('COND-MATRIX', inst, 'a type condition that cannot apply to a %s parent is rejected' % kind, m.get('sp', '')))
         else:
             obs.append(bad('COND-MATRIX', inst, 'parent kind %s falls into an arm that accepts every type condition' % kind,
                            arm['body'].get('sp', m.get('sp', '')), '`... on Droid` inside a `Human` selection is turned into code'))
@@ -599,6 +623,35 @@ def rule_typename_matrix(ctx):
                                'abstract selections the filter drops may omit __typename'))
             else:
                 obs.append(ok('TYPENAME-MATRIX', inst, 'filter reads no selection content', n.get('sp', '')))
+    # .. and the loops of the check run to the end: a `break` (or an early `return Ok`) in the kind-selecting position ends
+    # the check for everything that follows
+    for f_ in family:
+        for lp in f_.walk(lambda n: n['k'] == 'for'):
+            try:
+                it_ = ctx.pv.eval(f_, lp['iter'], H.sym_env(f_), 0)
+            except Exception:
+                continue
+            src = TM.fields_in(it_) & {'Query.selections', 'Query.fragments'}
+            if not src:
+                continue
+            stops = []
+            for x in _walk(lp['body']):
+                if x['k'] == 'break':
+                    near = None
+                    for p_, r_, c_ in f_.ancestors(x):
+                        if p_.get('k') in ('for', 'loop', 'while'):
+                            near = p_
+                            break
+                    if near is lp:
+                        stops.append(x)
+                elif x['k'] == 'ret' and not returns_err(x):
+                    stops.append(x)
+            inst = 'validate_typename_presence/loop-%s' % '+'.join(sorted(src))
+            if stops:
+                obs.append(bad('TYPENAME-MATRIX', inst, 'the loop over %s can stop early (`%s`) without an error' % (sorted(src), stops[0]['k']), stops[0].get('sp', ''),
+                               'abstract selections after the first skipped element are never checked for __typename'))
+            else:
+                obs.append(ok('TYPENAME-MATRIX', inst, 'the loop visits every element (skips are `continue`s, exits are errors)', lp.get('sp', '')))
     # both abstract kinds are covered where kinds are filtered: each rejecting check is reachable for a parent of kind
     # Interface and for one of kind Union (path conditions evaluated with the TypeId kind as the only known atom)
     def pat_kinds(p):
